@@ -50,6 +50,11 @@ theorem mod_ne_of_lt_lap {q q' L : Nat} (hL : 0 < L) (hne : q ≠ q') (hlt : q' 
 
 namespace Gen
 
+/-- Closes the side conditions (`.safe`) of a generated definition whatever their number, order and spelling: split the
+conjunction, move the path conditions into the context, split conditionals, finish by linear arithmetic. -/
+macro "gen_arith" : tactic =>
+  `(tactic| ((repeat' apply And.intro) <;> ((repeat' split) <;> intros <;> (repeat' split) <;> first | trivial | omega)))
+
 /-! ### `_available` of the three roles -/
 
 theorem consAvail_ret_eq (p l L : Nat) (hL : 0 < L) (hL63 : L < 2 ^ 63) (hpl : p ≤ l) (hd : l - p < L) (c n a : Nat) :
@@ -88,13 +93,13 @@ theorem prodAvail_cached_eq (i c s L n a : Nat) : prodAvail.cached' i c s L n a 
 
 /-- No unchecked subtraction/addition in `_available` can go wrong for in-range indices. -/
 theorem prodAvail_safe (i s L : Nat) (hi : i < L) (hs : s < L) (hL : L < 2 ^ 63) (c n a : Nat) : prodAvail.safe i c s L n a := by
-  unfold prodAvail.safe; (repeat' apply And.intro) <;> first | trivial | omega
+  unfold prodAvail.safe; gen_arith
 
 theorem workAvail_safe (i s L : Nat) (hi : i < L) (hs : s < L) (hL : L < 2 ^ 63) (c n a : Nat) : workAvail.safe i c s L n a := by
-  unfold workAvail.safe; (repeat' apply And.intro) <;> first | trivial | omega
+  unfold workAvail.safe; gen_arith
 
 theorem consAvail_safe (i s L : Nat) (hi : i < L) (hs : s < L) (hL : L < 2 ^ 63) (c n a : Nat) : consAvail.safe i c s L n a := by
-  unfold consAvail.safe; (repeat' apply And.intro) <;> first | trivial | omega
+  unfold consAvail.safe; gen_arith
 
 /-! ### `advance_local`, `_advance`, `check` -/
 
@@ -106,7 +111,7 @@ theorem advanceLocal_cached_eq (i c s L n a : Nat) : advanceLocal.cached' i c s 
   unfold advanceLocal.cached'; omega
 
 theorem advanceLocal_safe (i c s L n a : Nat) (hi : i < L) (hn : n ≤ L) (hL : L < 2 ^ 63) : advanceLocal.safe i c s L n a := by
-  unfold advanceLocal.safe; (repeat' apply And.intro) <;> first | trivial | omega
+  unfold advanceLocal.safe; gen_arith
 
 theorem advance_pub_eq (i c s L n a : Nat) : advance.pub' i c s L n a = some (advance.index' i c s L n a) := rfl
 theorem advance_index_eq (i c s L n a : Nat) : advance.index' i c s L n a = advanceLocal.index' i c s L n a := rfl
@@ -148,7 +153,7 @@ theorem detGoBack_safe (p n L c : Nat) (hL : 0 < L) (hn : n ≤ p) (hnL : n ≤ 
     detGoBack.safe (p % L) c s L n a := by
   unfold detGoBack.safe
   have h1 : p % L < L := Nat.mod_lt _ hL
-  (repeat' apply And.intro) <;> first | trivial | omega
+  gen_arith
 
 /-! ### slice windows -/
 
@@ -184,10 +189,10 @@ theorem nextChunk_lens (i L n : Nat) (hi : i < L) (hn : n ≤ L) :
   refine ⟨?_, ?_, ?_, ?_, ?_⟩ <;> (try split) <;> omega
 
 theorem nextChunkMut_safe (i L n : Nat) (hi : i < L) (hn : n ≤ L) (hL : L < 2 ^ 63) : nextChunkMut.safe i 0 0 L n 0 := by
-  unfold nextChunkMut.safe; (repeat' apply And.intro) <;> first | trivial | omega
+  unfold nextChunkMut.safe; gen_arith
 
 theorem nextChunk_safe (i L n : Nat) (hi : i < L) (hn : n ≤ L) (hL : L < 2 ^ 63) : nextChunk.safe i 0 0 L n 0 := by
-  unfold nextChunk.safe; (repeat' apply And.intro) <;> first | trivial | omega
+  unfold nextChunk.safe; gen_arith
 
 /-- The mirrored (vmem) form hands out one slice `[index, index+n)` of the doubled address range. -/
 theorem nextChunkVm_window (i L n : Nat) (hi : i < L) (hn : n ≤ L) :
@@ -219,6 +224,10 @@ theorem pageSizeMul_spec (req ps : Nat) (hps : 0 < ps) :
   · first
       | exact Nat.dvd_mul_left _ _
       | exact Nat.dvd_mul_right _ _
+      | (split <;> first
+          | exact Nat.dvd_of_mod_eq_zero ‹_›
+          | exact ⟨req / ps, by omega⟩
+          | exact ⟨req / ps + 1, by rw [Nat.mul_add, Nat.mul_one]; omega⟩)
   all_goals ((try split) <;> (try simp only [Nat.add_mul, Nat.mul_add, Nat.one_mul, Nat.mul_one]) <;> omega)
 
 end Gen
